@@ -118,7 +118,9 @@ theorem mem_needTraits {stdTraits : List Nat} {db : DB R} {t : Nat} :
     t ∈ needTraits stdTraits db ↔ t ∈ stdTraits ∧ ¬ (t ∈ db.traits ∧ isCustom t = false) := by
   unfold needTraits
   rw [List.mem_eraseDups, List.mem_filter]
-  simp [List.mem_filter]
+  apply and_congr_right
+  intro _
+  cases hc : isCustom t <;> simp [List.mem_filter, hc]
 
 theorem mem_needRcs {stdRcs : List Nat} {db : DB R} {q : Nat × Nat} :
     q ∈ needRcs stdRcs db ↔
@@ -133,7 +135,9 @@ theorem mem_needRcs {stdRcs : List Nat} {db : DB R} {q : Nat × Nat} :
     have : ((db.rcs.map (·.2)).filter (fun n => !isCustom n)).contains p.1 = true := by
       rw [List.contains_iff_mem, List.mem_filter]
       exact ⟨List.mem_map.2 ⟨r, hr, e⟩, by simpa using hc⟩
-    simp [this] at hp
+    have h2 := hp.2
+    rw [this] at h2
+    simp at h2
   · rintro ⟨h1, h2⟩
     refine ⟨(q.2, q.1), List.mem_filter.2 ⟨h1, ?_⟩, rfl⟩
     cases hc : ((db.rcs.map (·.2)).filter (fun n => !isCustom n)).contains q.2 with
@@ -410,8 +414,8 @@ theorem rcT_init {stdRcs stdTraits : List Nat} (h1 : stdRcs.Nodup) (h2 : stdTrai
 
 /-- the empty database (nothing synchronised yet) -/
 theorem stdOk_empty (stdRcs stdTraits : List Nat) : StdOk stdRcs stdTraits ({} : DB R) :=
-  ⟨fun _ hp => by cases hp, fun _ ht => by cases ht⟩
-theorem customIdsOk_empty : CustomIdsOk ({} : DB R) := fun _ hp => by cases hp
+  ⟨fun _ hp _ => (List.not_mem_nil hp).elim, fun _ ht _ => (List.not_mem_nil ht).elim⟩
+theorem customIdsOk_empty : CustomIdsOk ({} : DB R) := fun _ hp _ => (List.not_mem_nil hp).elim
 theorem rcT_empty : RcT ({} : DB R) := ⟨List.nodup_nil, List.nodup_nil, List.nodup_nil⟩
 
 end Placement.SyncL
